@@ -31,8 +31,8 @@ RULE = ("axis class drawn from all dataclasses of abtem.core.axes (18), each fie
         "values or linear axis with n>=2; distinct = distinct case signature")
 CLAUSES = ["roundtrip-type", "roundtrip-fields", "roundtrip-eq", "roundtrip-input-unchanged", "getitem-values", "getitem-meta",
            "concatenate-values", "concatenate-meta", "linear-coordinates", "pipeline-getitem", "pipeline-concatenate"]
-QUICK = dict(n=2500, time=40)
-THOROUGH = dict(n=80000, time=180, shards=16)
+QUICK = dict(n=6000, time=40)
+THOROUGH = dict(n=40000, time=150, shards=16)
 
 STRS = ["", "x", "thickness", "x, y", "Å", "1/Å", "mrad", "α β", "$\\alpha$", "e/Å^2", "a b [c]", "unknown"]
 
@@ -214,7 +214,8 @@ def fixed_cases(tier):
                                          [[1.0, 2.0], [3.0, 4.0], [5.0, 6.0]] if cls in ("TiltAxis", "PositionsAxis", "WaveVectorAxis")
                                          else [0.25, 0.5, 4.0])
             case["items"] = items
-            case["other"] = case["fields"]["values"]["v"]
+            case["other"] = dict(case["fields"]["values"]["v"], data=[[7.0, 8.0], [9.0, 10.0]] if cls in (
+                "TiltAxis", "PositionsAxis", "WaveVectorAxis") else [16.0, 32.0])
         if "sampling" in names:
             case["fields"]["sampling"] = {"f": "scalar", "v": {"v": 0.1, "as": "float"}}
             case["fields"]["offset"] = {"f": "scalar", "v": {"v": -3.7, "as": "float"}}
